@@ -13,7 +13,8 @@ operation is `rne` of the exact result (that this is what the hardware does is
 validated by the `mul/div/ldexp/u64` ops of the correspondence run, and is a
 hypothesis — `Arith.IEEE` — of the theorems, not an axiom).
 
-The code is modelled as it is, including: table entry `pow5s[23]` (= 5^7), the
+The code is modelled as it is (entry `pow5s[23]` was `5^7` until /repo commit 26681def
+repaired it; the literal below is the repaired table), including: the
 multi-rounding "fast path" taken for every exponent, the `exact` flag that only
 looks at the mantissa, `pow5` flushing to 0 below 5^-324, the truncation of long
 binary mantissas to 53 bits, `AddOverflow`'s `z < x` test, hex digits accepted in
@@ -145,7 +146,8 @@ def ldexpE : F → Int → F
 def ieee : Arith :=
   { ofU64 := fun w => rne w 1 0, mul := mulE, div := divE, ldexp := ldexpE }
 
-/-! ## the tables of float.go (bit patterns as compiled today) -/
+/-! ## the tables of float.go (bit patterns as compiled today; `pow5s[23]` was
+    `0x40F312D000000000` = 5^7 before /repo commit 26681def) -/
 
 def pow5sBits : List Nat := [
   0x3FF0000000000000, 0x4014000000000000, 0x4039000000000000, 0x405F400000000000,
@@ -153,7 +155,7 @@ def pow5sBits : List Nat := [
   0x4117D78400000000, 0x413DCD6500000000, 0x4162A05F20000000, 0x41874876E8000000,
   0x41AD1A94A2000000, 0x41D2309CE5400000, 0x41F6BCC41E900000, 0x421C6BF526340000,
   0x4241C37937E08000, 0x4266345785D8A000, 0x428BC16D674EC800, 0x42B158E460913D00,
-  0x42D5AF1D78B58C40, 0x42FB1AE4D6E2EF50, 0x4320F0CF064DD592, 0x40F312D000000000,
+  0x42D5AF1D78B58C40, 0x42FB1AE4D6E2EF50, 0x4320F0CF064DD592, 0x43452D02C7E14AF6,
   0x436A784379D99DB4, 0x43908B2A2C280291, 0x43B4ADF4B7320335, 0x43D9D971E4FE8402,
   0x440027E72F1F1281, 0x442431E0FAE6D721, 0x44493E5939A08CEA, 0x446F8DEF8808B024]
 
